@@ -100,3 +100,13 @@ def tight(rng, frames, **over):
     p["p_pause"] = 0.0
     p["p_poll"] = rng.choice([0.0, 0.3])
     return p
+
+
+def delays(rng, frames, **over):
+    """Run-time input-delay changes 0..max_delay at random ticks (C11)."""
+    p = general(rng, frames, **over)
+    p["p_delay"] = rng.choice([0.02, 0.05, 0.15])
+    p["max_delay"] = rng.choice([2, 4, 6])
+    p["cfg"]["max_delay"] = 8
+    p["loss"] = rng.choice([0.0, 0.05])
+    return p
